@@ -28,7 +28,7 @@ LEVEL_TEXT = ('Lean 4 theorems over a line-by-line model of expandDef, Definitio
               'Known finding D49 (\\expandafter executes an unexpandable assignment) has a dual-variant model: theorem for the repaired variant, kernel-checked counterexample for the code as is. '
               'Outside the proved fragment (## in macros without parameter text, \\ifx in bodies, the code as is with \\expandafter) programs are tied by the document-level correspondence stream (real interpreter vs model vs TeX evaluator on generated NF-prog programs).')
 LEVEL_NOTE = ('Trusted: Lean kernel (axioms propext, Classical.choice, Quot.sound only), the correspondence harness and its program generator, the C01 tokenizer model used to tokenize programs for the Lean side, CPython. '
-              'Not covered: \\edef/\\xdef as true expansion, \\long/\\global prefixes, #{ patterns (the code handles them differently from TeX; outside the stated quantifier), character \\let, \\ifx; '
+              'Not covered: \\edef/\\xdef as true expansion, \\long/\\global prefixes, #{ patterns (the code handles them differently from TeX; outside the stated quantifier), character \\let; \\ifx only inside NF-prog 4 (two characters, or two macros without parameters and with plain-text bodies): its comparison is proved (ifx_compare_is_tex_partial), its branch selection is tied by the prog stream; '
               'run_eq_texRun_statement (filter namesOk instead of fragOk) is stated, not proved: missing are ## in parameterless macros and \\ifx tokens in replacement texts.')
 TECHNIQUE = 'Lean 4 proofs (induction over replacement text / parameter text / token stream; simulation with fuel monotonicity) + independent executable TeX semantics + differential correspondence at component and document level'
 TRUSTED = ['Spec/TeXMacro.lean is the independent evaluation (written from TeXbook ch. 20; no TeX engine is installed)',
@@ -103,7 +103,7 @@ def _setup():
         doc = TeXDocument()
         tex = TeX(doc)
         _env.update(doc=doc, TeX=TeX, T=T, plasTeX=plasTeX, TeXDocument=TeXDocument, pdoc=None, base=None, n=0)
-        for n in NAMES + ALIASES + ['zqm', 'zqend', 'zqsep', 'zqp', 'zqn']:
+        for n in NAMES + ALIASES + PLAINS + ['zqm', 'zqend', 'zqsep', 'zqp', 'zqn', 'zqt']:
             if n in doc.context.keys():
                 raise RuntimeError('generator macro name %s is predefined by plasTeX' % n)
     return _env
@@ -352,6 +352,7 @@ def gen_defparse(rng):
 
 NAMES = ['zqa', 'zqb', 'zqc', 'zqd', 'zqe', 'zqf', 'zqg', 'zqh', 'zqi', 'zqj']
 ALIASES = ['zqu', 'zqv', 'zqw']
+PLAINS = ['zqx', 'zqy', 'zqz']          # parameterless macros with plain-text bodies: the operands of \ifx (NF-prog 4)
 TEXT = 'abcxyzABC'
 TEXTO = '()+*|'
 
@@ -372,6 +373,9 @@ class ProgGen:
         self.counter = 0
         self.has_p = False
         self.inner = set()
+        self.plain = [{}]         # plain-text macros visible per open group: name -> body
+        self.base = ''.join(rng.choice('abxyz') for _ in range(rng.randint(2, 4)))     # the bodies are variations of one word
+        self.has_t = False
 
     # -- helpers
     def defined(self):
@@ -515,6 +519,11 @@ class ProgGen:
     def item(self, depth):
         rng = self.rng
         self.budget -= 1
+        if 'ifx' in self.f and rng.random() < 0.16:
+            vis = self.plain_visible()
+            if not vis or rng.random() < 0.4:
+                return self.plain_def()
+            return self.ifx_item(depth)
         r = rng.random()
         dfd = self.defined()
         if r < 0.30 or not dfd:
@@ -534,6 +543,65 @@ class ProgGen:
         if r < 0.87 and 'norelax' not in self.f:
             return '\\relax '
         return self.word() + (' ' if rng.random() < 0.3 else '')
+
+    # -- \ifx between plain-text macros / characters (NF-prog 4), conditionals well nested (NF-prog 6)
+    def plain_visible(self):
+        vis = {}
+        for d in self.plain:
+            vis.update(d)
+        return vis
+
+    def plain_def(self):
+        """\\def\\zqx{body}: the bodies of one program are variations of one word (equal, proper prefix, extension, a change
+        inside, empty, one character), so that \\ifx has to tell apart texts that agree on a prefix"""
+        rng = self.rng
+        b = self.base
+        body = rng.choice([b, b, b + rng.choice('abxyz'), b + b, b[:-1], b[:1], '', b[:1] + rng.choice('pq') + b[2:],
+                           rng.choice('abxyz'), b[:-1] + rng.choice('abpq')])
+        name = rng.choice(PLAINS)
+        if rng.random() < 0.2:
+            for d in self.plain:
+                d[name] = body
+            return '\\gdef\\%s {%s}' % (name, body)
+        self.plain[-1][name] = body
+        return '\\def\\%s {%s}' % (name, body)
+
+    def branch(self, depth, forbid=''):
+        """balanced text of one branch: words, complete calls, groups, nested conditionals; no definitions"""
+        rng = self.rng
+        out = []
+        for _ in range(rng.randint(0, 3)):
+            r = rng.random()
+            dfd = self.defined()
+            if r < 0.3 and dfd:
+                out.append(self.call(rng.choice(dfd)))
+            elif r < 0.42:
+                out.append('{' + self.word() + '}')
+            elif r < 0.55 and depth < 2 and self.plain_visible():
+                out.append(self.ifx_item(depth + 1, top=False))
+            else:
+                out.append(self.word() + (' ' if rng.random() < 0.2 else ''))
+        return ''.join(out)
+
+    def ifx_item(self, depth, top=True):
+        rng = self.rng
+        vis = sorted(self.plain_visible())
+        r = rng.random()
+        if r < 0.72 and vis:
+            a, b = rng.choice(vis), rng.choice(vis)
+            if self.has_t and rng.random() < 0.25:
+                return '\\zqt \\%s \\%s ' % (a, b)          # through a macro: expandDef wraps the parameters after \ifx in groups
+            test = '\\ifx\\%s \\%s ' % (a, b)
+        elif r < 0.8 and vis and not self.has_t and len(self.scopes) == 1 and top:
+            self.has_t = True
+            return '\\def\\zqt #1#2{\\ifx #1#2[s]\\else [d]\\fi }\\zqt \\%s \\%s ' % (rng.choice(vis), rng.choice(vis))
+        else:
+            c1 = rng.choice('abx')
+            test = '\\ifx %s%s' % (c1, c1 if rng.random() < 0.5 else rng.choice('abx'))
+        then_ = self.branch(depth)
+        if rng.random() < 0.75:
+            return test + then_ + '\\else ' + self.branch(depth) + '\\fi '
+        return test + then_ + '\\fi '
 
     def definition(self):
         rng = self.rng
@@ -575,8 +643,10 @@ class ProgGen:
     def group(self, depth):
         rng = self.rng
         self.scopes.append(set())
+        self.plain.append({})
         inner = ''.join(self.item(depth + 1) for _ in range(rng.randint(1, 4)) if self.budget > 0)
         self.scopes.pop()
+        self.plain.pop()
         if rng.random() < 0.25:
             return '\\begingroup ' + inner + '\\endgroup '
         return '{' + inner + '}'
@@ -651,9 +721,11 @@ class ProgGen:
 
 
 def gen_prog(rng, malformed=False):
-    feats = {'newcommand', 'let', 'csname', 'expandafter'}
+    feats = {'newcommand', 'let', 'csname', 'expandafter', 'ifx'}
     if rng.random() < 0.35:
         feats = set(x for x in sorted(feats) if rng.random() < 0.5)
+    if rng.random() < 0.5:
+        feats = set(feats) - {'ifx'}       # half of the programs stay inside the fragment of the program-level theorems
     if malformed:
         # a truncated call can swallow a following \relax and hand it to a \def: redefining \relax at run time breaks
         # plasTeX's own number/argument readers (outside the model and outside NF-prog), so malformed programs carry none
@@ -729,6 +801,11 @@ def corpus():
         # \let onto a name that exists and has been used: the new meaning must be seen at once (no group boundary in between)
         P('\\def\\zqa {1}', '\\def\\zqc {2}', '\\zqa ', '\\let\\zqa \\zqc ', '\\zqa '),
         P('\\def\\zqa #1{(#1)}', '\\def\\zqc #1{[#1]}', '\\zqa {x}\\let\\zqa =\\zqc \\zqa {x}', '{\\zqa y\\let\\zqa \\zqc \\zqa y}'),
+        # \ifx between plain-text macros: equal, proper prefix, empty, through a macro (the parameters after \ifx are wrapped in groups)
+        P('\\def\\zqx {xy}', '\\def\\zqy {xyz}', '\\ifx\\zqx \\zqy T\\else F\\fi ', '\\ifx\\zqy \\zqx T\\else F\\fi ', '\\ifx\\zqx \\zqx T\\else F\\fi '),
+        P('\\def\\zqx {}', '\\def\\zqy {pq}', '\\ifx\\zqx \\zqy T\\else F\\fi ', '\\ifx ab T\\else F\\fi ', '\\ifx aa T\\fi '),
+        P('\\def\\zqx {ab}', '\\def\\zqy {abab}', '\\def\\zqt #1#2{\\ifx #1#2[s]\\else [d]\\fi }', '{\\zqt \\zqx \\zqy }', '\\zqt \\zqx \\zqx '),
+        P('\\def\\zqx {xy}', '\\def\\zqy {xy}', '\\ifx\\zqx \\zqy \\ifx\\zqx \\zqx A\\else B\\fi \\else F\\fi ', '.'),
         # D50: \expandafter in front of a macro whose expansion is empty
         P('\\def\\zqa #1{}', '\\def\\zqe #1{[#1]}', '\\expandafter\\zqe \\zqa AB'),
         P('\\def\\zqa #1#2#3#4#5#6#7#8#9{#9#8#7#6#5#4#3#2#1}', '\\zqa 123456789'),
@@ -927,7 +1004,11 @@ def judge(o):
             o.corr_ok = True
         if spec.startswith('-') and _PRIM_REDEF.search(''.join(chr(int(x)) for x in o.case.line.split()[1:])):
             o.corr_ok = True      # a malformed program that redefines or aliases a primitive (\def\relax, \let\x\def): outside the model
-        if model in ('err:AttributeError', 'err:ValueError') and spec.startswith('-'):
+        if len(o.aux) > 3 and _norm(o.aux[3]).startswith('ok:') and _norm(o.aux[3]) != spec:
+            # the evaluator of the program-level theorems (no conditionals) and the oracle with \ifx must agree where both are defined
+            o.corr_ok = False
+            o.note = 'texProgram and texProgramC disagree: %s / %s' % (_norm(o.aux[3])[:60], spec[:60])
+        if model in ('err:AttributeError', 'err:ValueError', 'err:unsupported') and spec.startswith('-'):
             o.corr_ok = True      # character \let / character in the name position: outside the model (and outside NF-prog)
     else:
         if impl_.startswith('err') and model.startswith('err'):
